@@ -750,3 +750,92 @@ Proof.
   - rewrite unlines_split. rewrite !length_app. pose proof (length_unlines_ge (split_nl body)) as L.
     rewrite unlines_split, length_app in L. change (String.length nl) with 1%nat in *. lia.
 Qed.
+
+(** ** wrapper and shape functions of within-word automata *)
+Ltac tpl_norm := cbv -[append sN]; rewrite ?append_assoc, ?QuoteRT.append_nil_r; cbn [append]; reflexivity.
+
+Lemma tpl_wrapper_header command id :
+  fmtln write_subword_wrapper_fn_0 [("command", command); ("id", sN id)]
+  = append (append "_" (append command (append (append "_subword_" (sN id)) " () {"))) nl.
+Proof. tpl_norm. Qed.
+Lemma tpl_shape_wrapper_header command id :
+  fmtln write_subword_shape_wrapper_fn_0 [("command", command); ("id", sN id)]
+  = append (append "_" (append command (append (append "_subword_" (sN id)) " () {"))) nl.
+Proof. tpl_norm. Qed.
+Lemma tpl_shape_header command sid :
+  fmtln write_subword_shape_fn_0 [("command", command); ("shape_id", sN sid)]
+  = append (append "_" (append command (append (append "_subword_shape_" (sN sid)) " () {"))) nl.
+Proof. tpl_norm. Qed.
+Lemma tpl_wrapper_call command :
+  fmtln write_subword_wrapper_fn_1 [("command", command)]
+  = append (append "    _" (append command (append "_subword" (append " ""$1"" ""$2""" EmptyString)))) nl.
+Proof. tpl_norm. Qed.
+Lemma tpl_shape_call command :
+  fmtln write_subword_shape_fn_1 [("command", command)]
+  = append (append "    _" (append command (append "_subword" (append " ""$1"" ""$2""" EmptyString)))) nl.
+Proof. tpl_norm. Qed.
+Lemma tpl_shape_wrapper_call command sid :
+  fmtln write_subword_shape_wrapper_fn_1 [("command", command); ("shape_id", sN sid)]
+  = append (append "    _" (append command (append (append "_subword_shape_" (sN sid)) (append " ""$1"" ""$2""" EmptyString)))) nl.
+Proof. tpl_norm. Qed.
+Lemma tpl_close_wrapper : fmtln write_subword_wrapper_fn_2 [] = append "}" nl.
+Proof. tpl_norm. Qed.
+Lemma tpl_close_shape : fmtln write_subword_shape_fn_2 [] = append "}" nl.
+Proof. tpl_norm. Qed.
+Lemma tpl_close_shape_wrapper : fmtln write_subword_shape_wrapper_fn_2 [] = append "}" nl.
+Proof. tpl_norm. Qed.
+
+Lemma close_sem cmd : line_sem cmd "}" (Some SEnd).
+Proof. split; [reflexivity|]. split; [intros rest; reflexivity | exact I]. Qed.
+
+Lemma blank_sem cmd : line_sem cmd EmptyString None.
+Proof. split; [reflexivity|]. split; [intros rest; reflexivity | exact I]. Qed.
+
+Lemma sub_suffix_ok (pre : string) (n : N) :
+  forallb is_name_char (list_ascii_of_string pre) = true -> no_nl pre = true ->
+  forallb is_name_char (list_ascii_of_string (append pre (sN n))) = true /\ no_nl (append pre (sN n)) = true.
+Proof.
+  intros H1 H2. split; [apply name_chars_app; [exact H1 | apply name_chars_sN] | rewrite no_nl_app, H2, no_nl_sN; reflexivity].
+Qed.
+
+Definition acc_pairs (acc : list N) : list (N * N) := map (fun s => (s, 1)) acc.
+
+Transparent sN.
+Lemma kv_one (s : N) : ("[" ++ sN s ++ "]=1")%string = kv (s, 1).
+Proof. reflexivity. Qed.
+Opaque sN.
+
+Lemma write_accepting_states_line acc :
+  write_accepting_states acc = assoc_pairs_line "accepting_states" (acc_pairs acc).
+Proof.
+  unfold write_accepting_states, assoc_pairs_line, acc_pairs. rewrite map_map.
+  rewrite (map_ext _ _ kv_one).
+  generalize (join " " (map (fun x : N => kv (x, 1)) acc)). intros b. tpl_norm.
+Qed.
+
+Lemma accepting_scans cmd acc :
+  scans cmd 1 (write_accepting_states acc) [SAssoc "accepting_states" (map (fun p => (fst p, [snd p])) (acc_pairs acc))].
+Proof.
+  rewrite write_accepting_states_line.
+  pose proof (reads_scans cmd [assoc_pairs_line "accepting_states" (acc_pairs acc)]
+                [SAssoc "accepting_states" (map (fun p => (fst p, [snd p])) (acc_pairs acc))]) as H.
+  cbn [sconcat List.length] in H. rewrite QuoteRT.append_nil_r in H. apply H.
+  constructor; [|constructor]. split; [discriminate|]. split; [exact I|]. intros rest. apply bash_pairs_stmt. auto.
+Qed.
+
+Lemma literals_scans cmd t :
+  scans cmd 1 (write_literals t) [SLits "literals" (map (fun l => snd (fst l)) (t_literals t))].
+Proof.
+  rewrite write_literals_line.
+  pose proof (reads_scans cmd [literals_line (map (fun l => snd (fst l)) (t_literals t))]
+                [SLits "literals" (map (fun l => snd (fst l)) (t_literals t))]) as H.
+  cbn [sconcat List.length] in H. rewrite QuoteRT.append_nil_r in H. apply H.
+  constructor; [|constructor]. split; [discriminate|]. split; [exact I|]. intros rest.
+  apply bash_literals_stmt. apply all_admissible_bash.
+Qed.
+
+Lemma match_scans cmd t : scans cmd (List.length (match_stmts t)) (write_match_transitions t) (match_stmts t).
+Proof. rewrite write_match_transitions_lines. apply reads_scans, reads_match. Qed.
+
+Lemma completion_scans cmd t : scans cmd (List.length (completion_stmts t)) (write_completion_tables t) (completion_stmts t).
+Proof. rewrite write_completion_tables_lines. apply reads_scans, reads_completion. Qed.
